@@ -265,12 +265,12 @@ type lintJSON struct {
 
 // FileInfo is what the history produced for one file.
 type FileInfo struct {
-	Name        string
-	Wants       []want
-	Rebuild     bool
-	Route       string
-	Kinds       []string
-	Padded      bool
+	Name    string
+	Wants   []want
+	Rebuild bool
+	Route   string
+	Kinds   []string
+	Padded  bool
 }
 
 type Outcome struct {
@@ -292,6 +292,7 @@ func checkCase(c Case) (Outcome, error) {
 	m["base"] = &table{cols: []column{{name: "id"}, {name: "a"}, {name: "g", virtual: true}, {name: "b"}}, indexes: []string{"ix_base_0"}}
 	m["other"] = &table{cols: []column{{name: "id"}, {name: "a"}, {name: "b"}}}
 	m["events"] = &table{cols: []column{{name: "id"}, {name: "a"}, {name: "b"}}} // a name that starts with letters of the rebuild prefix new_
+	m["Users"] = &table{cols: []column{{name: "id"}, {name: "a"}, {name: "b"}}}  // a mixed-case name (the rebuild goes through new_Users)
 	sb.WriteFile("m/100_init.sql", m.schemaSQL())
 	rehash := func() error {
 		if r := sb.Run("migrate", "hash", "--dir", "file://m"); r.Code != 0 {
